@@ -266,12 +266,12 @@ func genC16Maps(level int) []*MapScen {
 			out = append(out, ms)
 		}
 		stallers := []MIn{opStore, opDelete, opLaS, opCPark, opCDel, opLoC, opClear, opRange}
-		if ci >= 2 {
+		if ci >= 2 && level == 0 {
 			stallers = []MIn{opStore, opDelete, opCPark, opClear} // secondary key types: the core pairs
 		}
 		for _, rd := range readers {
 			hit := rd.Op == MLoadOrStore || rd.Op == MLoadOrCompute
-			if ci < 2 {
+			if ci < 2 || level >= 1 {
 				// lookups through an overflow bucket and through a very long chain
 				for _, st := range []MIn{opStore, opDelete, opCPark} {
 					for _, ff := range []bool{false, true} {
